@@ -10,6 +10,17 @@ def U(name, src, flavour='asan', quick=None, thorough=None, **kw):
 TRUSTED = ['g++ 12 / clang 14 and their ASan/UBSan runtimes', 'the choice-sequence engine in harness/engine.h (generation, shrinking, replay)']
 
 PROPERTIES = {
+ 'C14': dict(
+    level='exploration', exhaustive_claim=True,
+    rule='exhaustive: every day of years -10000..+20000 for 7 precisions (+ 32-bit representations), every second of 12 selected days; generated min/max neighbourhoods, calendar boundaries and random 64-bit counts for time points and durations, CRawTime/CTimeRef, MsgPack timestamp passage; oracle = ref_calendar (Rata-Die in __int128, self-tested against glibc gmtime_r)',
+    assumptions=TRUSTED + ['ref_calendar.h; glibc gmtime_r for its self-test', 'recorded findings KF-27 (first day of a 64-bit range cannot be parsed back) and KF-33 (coarse 64-bit time points beyond +-292 billion years) are excluded by construction and witnessed separately'],
+    units=[U('c14_sweep', 'c14_chrono_text.cpp', flavour='opt', args=['--only-sweeps'],
+             quick=dict(shards=16, min_eval=30000000), thorough=dict(shards=16, min_eval=30000000)),
+           U('c14_pbt', 'c14_chrono_text.cpp', flavour='asan', args=['--no-sweeps', '--skip-prefix', 'kf'],
+             quick=dict(cases=40000, shards=8, min_eval=100000), thorough=dict(cases=1500000, shards=16, min_eval=1000000)),
+           U('c14_kf', 'c14_chrono_text.cpp', flavour='opt', args=['--no-sweeps', '--prop', 'kf*'],
+             quick=dict(cases=1200, shards=1, min_eval=100), thorough=dict(cases=12000, shards=1, min_eval=100))]),
+
  'C16': dict(
     level='exploration', exhaustive_claim=True,
     rule='exhaustive 8/16-bit integers and 2^24 (quick) / all 2^32 (thorough) float bit patterns; generated boundary/random 32/64-bit integers, doubles and literal-grammar strings; oracle = ref_num (from_chars grammar recogniser, __int128, glibc strtof/strtod)',
